@@ -553,7 +553,7 @@ V('M-opt-after-lookup', ['C17'], 'A4.contra', BE, "                if namedType.
 # ---- wrapper (C11)
 V('M-kind-fastpath', ['C11'], 'A12.kinds', BD, "        substrate = asSeekableStream(substrate)\n\n        streamingDecoder = cls.STREAMING_DECODER(", "        if not isinstance(substrate, bytes):\n            substrate = asSeekableStream(substrate)\n\n        else:\n            substrate = io.BytesIO(substrate)\n\n        streamingDecoder = cls.STREAMING_DECODER(")
 V('M-no-octetstring-arm', ['C11'], 'A12.total', ST, "    elif isinstance(substrate, univ.OctetString):\n        return io.BytesIO(substrate.asOctets())\n", "")
-V('M-peek-no-seekback', ['C11'], 'A12.cache', ST, "        result = self.read(n)\n        self._cache.seek(-len(result), os.SEEK_CUR)\n        return result", "        result = self.read(n)\n        return result")
+V('M-peek-no-seekback', ['C11'], 'A12.cache', ST, "        result = self.read(n)\n        if result:\n            self._cache.seek(-len(result), os.SEEK_CUR)\n        return result", "        result = self.read(n)\n        return result")
 
 # ---- purity (C12)
 V('M-no-clone', ['C12'], 'A5.spec', BD, "            asn1Object = self.protoComponent.clone(tagSet=tagSet)\n\n        else:\n            asn1Object = asn1Spec.clone()\n\n        if substrateFun:\n            for chunk in substrateFun(asn1Object, substrate, length, options):\n                yield chunk\n\n            return\n\n        options = self._passAsn1Object(asn1Object, options)\n\n        if asn1Object.tagSet == tagSet:",
@@ -822,19 +822,6 @@ def run_for_property(pid, repo=None, jobs=None):
             'wall_s': round(time.time() - t0, 3)}
 
 
-if __name__ == '__main__':
-    from sa import props
-    pids = sys.argv[1:] or sorted(props.PROPS)
-    bad = 0
-    for pid in pids:
-        r = run_for_property(pid)
-        for l in r['lines']:
-            print(l)
-        print('== %s: fire %d silent %d stale %d wall %.1fs %s' % (pid, r['summary']['must_fire_ok'], r['summary']['must_stay_silent_ok'],
-                                                                  r['summary']['stale'], r['wall_s'], ('BROKEN: ' + r['broken']) if r['broken'] else 'ok'))
-        bad += bool(r['broken'])
-    sys.exit(1 if bad else 0)
-
 # ---- round 4 (seeded changes d1..d3): rules added after first contact
 ND = 'pyasn1/codec/native/decoder.py'
 NTY = 'pyasn1/type/namedtype.py'
@@ -849,3 +836,25 @@ V('M-cer-bool-next', ['C05', 'C06'], 'A2.next', CD,
   "        for chunk in readFromStream(substrate, length, options):\n            if isinstance(chunk, SubstrateUnderrunError):\n                yield chunk\n\n        byte = oct2int(chunk[0])",
   "        chunk = next(readFromStream(substrate, length, options))\n\n        byte = oct2int(chunk[0])")
 V('M-no-probe', ['C05', 'C06'], ('A2.probe', 'A3.trunc', 'A2.retry'), ST, "            more = substrate.read(1)", "            more = isinstance(substrate, io.BytesIO) and substrate.read(1) or None")
+
+# round 5 (defects reported by agents, repaired in /repo; DESIGN.md section 10)
+V('M-ifne-inherit', ['C01', 'C02'], 'A5.itemopt', BE, "        ifNotEmpty = options.pop('ifNotEmpty', False)", "        ifNotEmpty = options.get('ifNotEmpty', False)")
+V('M-cer-bitseg', ['C03'], 'A7.bitseg', CE, "            options.update(maxChunkSize=maxChunkSize - 1)", "            options.update(maxChunkSize=maxChunkSize)")
+V('M-cer-bitseg-unregistered', ['C03'], 'A7.bitseg', CE, "    univ.BitString.typeId: BitStringEncoder(),\n", "")
+V('M-wrap-none', ['C05', 'C11'], 'A12.none', ST,
+  "        if read_from_raw is None:  # non-blocking stream has nothing yet\n            return read_from_cache or None\n\n", "")
+V('M-peek-none', ['C11'], 'A12.none', ST, "        if result:\n            self._cache.seek(-len(result), os.SEEK_CUR)", "        self._cache.seek(-len(result), os.SEEK_CUR)")
+
+
+if __name__ == '__main__':
+    from sa import props
+    pids = sys.argv[1:] or sorted(props.PROPS)
+    bad = 0
+    for pid in pids:
+        r = run_for_property(pid)
+        for l in r['lines']:
+            print(l)
+        print('== %s: fire %d silent %d stale %d wall %.1fs %s' % (pid, r['summary']['must_fire_ok'], r['summary']['must_stay_silent_ok'],
+                                                                  r['summary']['stale'], r['wall_s'], ('BROKEN: ' + r['broken']) if r['broken'] else 'ok'))
+        bad += bool(r['broken'])
+    sys.exit(1 if bad else 0)
